@@ -22,12 +22,19 @@ shims).  Directives:
           //@macro rule=E1 name=<anyhow|format|...> to=<<replacement>>   every `name!(...)`
                                  invocation is replaced (balanced parentheses)
           //@slice loop=<k> | closure=<k> ...   (see DESIGN section 4; used for loop units)
+          //@forin rule=E14 find=<<for PAT in EXPR>> [var=<<name>>] [to=<<shim>>]   payload: invariant/decreases;
+                                 `for PAT in EXPR { B }` => `let mut VAR = [shim(]EXPR[)]; loop <payload> { match
+                                 VAR.next() { Some(PAT) => { B } None => { break; } } }` (Rust's definition of `for`)
+          //@letchain rule=E8 find=<<if let P = E &&>> [count=all]   let-chain => nested `if` (all identical ones)
           //@foridx rule=E18 find=<<for PAT in &EXPR>> [idx=<name>] [nth=k of=n]   payload = invariants;
                                  `for PAT in &EXPR { B }` over a Vec/slice by reference whose body uses
                                  `continue` -> index-based `while` (index advanced before B)
           //@replaceslice rule=SLICE-CALL of=<group>:<unit> | from=<<tokens>> to_block_end=1 | until=<<tokens>> | through=<<tokens>>
                                  payload (a call of the slice's wrapper function) replaces exactly the
                                  statement range a slice unit with the same anchors verifies
+          //@strslice rule=E13 from=<shim> to=<shim> range=<shim> [optional=1]
+                                 every str range indexing `&X[A..]` / `&X[..B]` / `&X[A..B]` (also without `&`)
+                                 -> `from(X, A)` / `to(X, B)` / `range(X, A, B)`; X, A, B verbatim
   //@stubof group=<g> unit=<ID>         emit `#[verifier::external_body] <signature + contract of unit ID
         of contracts/groups/<g>.rs> { unimplemented!() }` (payload lines = extra clauses, logged)
   //@copyfrom file=<rel path> from=<<line prefix>> until=<<line prefix>> [until_nth=k]
@@ -571,9 +578,23 @@ def apply_ops(unit, fn_text, log):
                 for k_from, k_to in (('slice_until', 'until'), ('slice_through', 'through')):
                     if k_from in ua:
                         a[k_to] = ua[k_from]
+                # the call must pass, name by name, the variables the wrapper declares as parameters
+                # (the slice's free variables): `f(a, &mut b)` against `fn f(a: T, b: &mut U)`
+                wtxt = unit_contract_of(*a['of'].split(':', 1))[0]
+                wm = re.search(r'\bfn\s+([A-Za-z_0-9]+)', wtxt)
+                wmask = rustlex.mask(wtxt)
+                wo = wmask.find('(', wm.end())
+                params = [x.split(':')[0].strip() for x in split_top(wtxt[wo + 1:rustlex.match_close(wmask, wo)]) if x.strip()]
+                cm = re.search(r'\b%s\s*\(' % re.escape(wm.group(1)), payload_txt)
+                if not cm:
+                    raise ExtractError('%s: replaceslice payload does not call %s' % (unit.id, wm.group(1)))
+                co = cm.end() - 1
+                cargs = [re.sub(r'^&\s*(mut\s+)?', '', x.strip()) for x in split_top(payload_txt[co + 1:rustlex.match_close(rustlex.mask(payload_txt), co)]) if x.strip()]
+                if cargs != params:
+                    raise ExtractError('%s: replaceslice call arguments %s differ from the wrapper parameters %s' % (unit.id, cargs, params))
             st, en = slice_region(unit.id, s, a['from'], a.get('to_block_end') == '1', a.get('until'), a.get('through'))
             s = s[:st] + payload_txt.strip() + '\n' + s[en:]
-            log.append({'unit': unit.id, 'rule': 'SLICE-CALL', 'what': 'statements `%s` .. (%s) replaced by `%s`' % (
+            log.append({'unit': unit.id, 'rule': 'SLICE-CALL', 'what': ('arguments = wrapper parameters by name; ' if 'of' in a else '') + 'statements `%s` .. (%s) replaced by `%s`' % (
                 a['from'], 'to block end' if a.get('to_block_end') == '1' else ('until `%s`' % a['until'] if 'until' in a else 'through `%s`' % a.get('through')),
                 ' '.join(payload_txt.split())[:200])})
         elif kind == 'closure':
@@ -636,6 +657,79 @@ def apply_ops(unit, fn_text, log):
                     inner_from = sk[0][1]
                 s = s[:st] + a['to'] + s[inner_from:cb] + a.get('close', ')') + s[cb + 1:]
             log.append({'unit': unit.id, 'rule': a.get('rule', 'E13'), 'what': '`%s INNER %s` x%d -> `%s INNER %s`' % (a['find'], {'(': ')', '[': ']', '{': '}'}[a['find'].rstrip()[-1]], want, a['to'], a.get('close', ')'))})
+        elif kind == 'strslice':
+            # Rule E13 for `str` range indexing (every occurrence, generic in receiver and bounds):
+            #   `&RECV[A..]` -> `<from>(RECV, A)`, `&RECV[..B]` -> `<to>(RECV, B)`, `&RECV[A..B]` -> `<range>(RECV, A, B)`
+            # RECV is the maximal postfix expression before `[` (as for //@chain); one leading `&` of it is
+            # dropped (the shim returns `&str`); A and B are kept verbatim. Index expressions without a
+            # top-level `..` (and `..=`) are left alone. `optional=1`: no occurrence is not an error.
+            n_done = 0
+            while True:
+                toks = rustlex.tokens(s)
+                masked = rustlex.mask(s)
+                hit = None
+                for k in range(len(toks) - 1, 0, -1):
+                    if toks[k][0] != '[' or not (re.match(r'^[A-Za-z_0-9]', toks[k - 1][0]) or toks[k - 1][0] in (')', ']')):
+                        continue
+                    if toks[k - 1][0] in ('in', 'return', 'let', 'mut', 'else', 'match', 'if'):
+                        continue
+                    cb = rustlex.match_close(masked, toks[k][1])
+                    depth, dots = 0, None
+                    for j in range(k + 1, len(toks)):
+                        if toks[j][1] >= cb:
+                            break
+                        if toks[j][0] in '([{':
+                            depth += 1
+                        elif toks[j][0] in ')]}':
+                            depth -= 1
+                        elif (depth == 0 and toks[j][0] == '.' and toks[j + 1][0] == '.' and toks[j + 1][1] == toks[j][2]
+                              and toks[j + 2][0] != '=' and (j == k + 1 or toks[j - 1][0] != '.' or toks[j - 1][2] != toks[j][1])):
+                            dots = (toks[j][1], toks[j + 1][2])
+                            break
+                    if dots:
+                        hit = (k, cb, dots)
+                        break
+                if hit is None:
+                    break
+                k, cb, dots = hit
+                KW = {'in', 'if', 'else', 'match', 'return', 'let', 'mut', 'while', 'for', 'loop', 'break'}
+                i = k - 1
+                while i >= 0:
+                    t = toks[i][0]
+                    if t in (')', ']'):
+                        depth = 0
+                        while i >= 0:
+                            if toks[i][0] in (')', ']'):
+                                depth += 1
+                            elif toks[i][0] in ('(', '['):
+                                depth -= 1
+                                if depth == 0:
+                                    break
+                            i -= 1
+                        i -= 1
+                        continue
+                    if (re.match(r'^[A-Za-z_0-9]', t) and t not in KW) or t in ('.', ':', '&', '*', '?'):
+                        i -= 1
+                        continue
+                    break
+                recv_start = toks[i + 1][1]
+                recv = s[recv_start:toks[k][1]].strip()
+                if recv.startswith('&'):
+                    recv = recv[1:].strip()
+                lo, hi = s[toks[k][2]:dots[0]].strip(), s[dots[1]:cb].strip()
+                if lo and hi:
+                    call = '%s(%s, %s, %s)' % (a['range'], recv, lo, hi)
+                elif lo:
+                    call = '%s(%s, %s)' % (a['from'], recv, lo)
+                elif hi:
+                    call = '%s(%s, %s)' % (a['to'], recv, hi)
+                else:
+                    raise ExtractError('%s: strslice: full range `[..]` is not handled' % unit.id)
+                s = s[:recv_start] + call + s[cb + 1:]
+                n_done += 1
+            if n_done == 0 and a.get('optional') != '1':
+                raise ExtractError('%s: strslice: no `X[A..B]` expression found' % unit.id)
+            log.append({'unit': unit.id, 'rule': a.get('rule', 'E13'), 'what': 'str range indexing `&X[A..]`/`&X[..B]`/`&X[A..B]` x%d -> %s(X, A) / %s(X, B) / %s(X, A, B)' % (n_done, a.get('from'), a.get('to'), a.get('range'))})
         else:
             raise ExtractError('unknown op ' + kind)
     return s
@@ -681,6 +775,23 @@ def slice_region(uid, body, from_anchor, to_block_end, until, through):
             break
         k += 1
     return st, rustlex.match_close(mb, k) + 1
+
+
+def split_top(txt):
+    """split at commas that are outside every bracket (angle brackets of generics included)"""
+    out, depth, cur = [], 0, ''
+    for k, ch in enumerate(txt):
+        if ch in '([{<':
+            depth += 1
+        elif ch in ')]}' or (ch == '>' and txt[k - 1:k] != '-'):
+            depth -= 1
+        if ch == ',' and depth == 0:
+            out.append(cur)
+            cur = ''
+        else:
+            cur += ch
+    out.append(cur)
+    return out
 
 
 def unit_args_of(group, uid):
@@ -854,7 +965,7 @@ def expand(group_path):
                     wrapper, i = payload_from(i + 1)
                 elif w2 == 'tail':
                     tail, i = payload_from(i + 1)
-                elif w2 in ('edit', 'macro', 'dropcall', 'chain', 'closure', 'forlines', 'letchain', 'wrap', 'whilelet', 'forin', 'foridx', 'replaceslice'):
+                elif w2 in ('edit', 'macro', 'dropcall', 'chain', 'closure', 'forlines', 'letchain', 'wrap', 'whilelet', 'forin', 'foridx', 'replaceslice', 'strslice'):
                     pl, i = payload_from(i + 1)
                     unit.ops.append((w2, parse_kv(r2), pl))
                 else:
